@@ -902,6 +902,12 @@ func populateVerificationMethod(context, didID, baseURI string,
 }
 
 func decodeVM(vm *VerificationMethod, rawPK map[string]interface{}) error {
+	if vm.Type == "Ed25519VerificationKey2020" {
+		// the key of this type is written as publicKeyMultibase: when it is given in another form the encoding is
+		// base58-btc, as in NewVerificationMethodFromBytes (a multibase value below sets its own encoding)
+		vm.multibaseEncoding = multibase.Base58BTC
+	}
+
 	if stringEntry(rawPK[jsonldPublicKeyBase58]) != "" {
 		if !isASCII(stringEntry(rawPK[jsonldPublicKeyBase58])) {
 			return errors.New("publicKeyBase58 is not base58 encoded")
@@ -1488,14 +1494,7 @@ func populateRawVerificationMethod(context, didID, baseURI string,
 	} else if vm.Type == "Ed25519VerificationKey2020" {
 		var err error
 
-		encoding := vm.multibaseEncoding
-		if encoding == 0 {
-			// the key was not given in multibase form (publicKeyBase58/Hex/Pem, or a method built without an
-			// encoding): base58-btc, as NewVerificationMethodFromBytes chooses for this type
-			encoding = multibase.Base58BTC
-		}
-
-		rawVM[jsonldPublicKeyMultibase], err = multibase.Encode(encoding, vm.Value)
+		rawVM[jsonldPublicKeyMultibase], err = multibase.Encode(vm.multibaseEncoding, vm.Value)
 		if err != nil {
 			return nil, err
 		}
